@@ -167,7 +167,28 @@ def f_suppress(a):
     return r
 
 
+def f_unbound(a):
+    r = 0
+    if a > 0:
+        x = a
+    try:
+        r = x + 1
+    except NameError:
+        r = -1
+    for y in (1, 2)[:a]:
+        r += y
+    try:
+        s = f'{y}'
+        r += 100
+    except UnboundLocalError:
+        r += 1000
+    except Exception:
+        r += 5000
+    return r
+
+
 CASES = {
+    'f_unbound': [(0,), (1,), (2,), (-1,)],
     'f_branch': [(0, 1), (1, 1), (2, 1), (-1, -2)],
     'f_chain': [(1, 2, 3), (3, 2, 1), (1, 1, 0), (0, 0, 0)],
     'f_bool_short': [(0, 5), (3, 0), (0, 0), (2, 7)],
